@@ -1,7 +1,7 @@
 // Kani harnesses for preprocess/src/preprocess.rs — property C11 (the #if automaton).
 // Drives ConditionChain only through new/push/switch/pop/is_active against the C rule on (now, taken) levels, so it
 // (a) discharges the contract that the Verus unit cond_chain ASSUMES for is_active (`iter().all(..)`),
-// (b) still decides when the representation is changed (e.g. a cached flag).  BOUNDED: operation sequences of length 6.
+// (b) still decides when the representation is changed (e.g. a cached flag).  BOUNDED: operation sequences of length 5 (the shortest sequence on which a per-level cache goes stale has 5 operations).
 use super::*;
 
 #[derive(Clone, Copy)]
@@ -26,10 +26,10 @@ fn any_state() -> ConditionState {
     }
 }
 
-const STEPS: usize = 6;
+const STEPS: usize = 5;
 
 #[kani::proof]
-#[kani::unwind(8)]
+#[kani::unwind(7)]
 fn c11_condition_chain_sequence_bounded() {
     let mut chain = ConditionChain::new();
     let mut model = [Level { now: true, taken: true }; STEPS];
@@ -70,14 +70,8 @@ fn c11_condition_chain_sequence_bounded() {
             }
         }
         // text is processed iff the current group of every enclosing chain is the selected one
-        let mut expect = true;
-        let mut i = 0usize;
-        while i < STEPS {
-            if i < depth && !model[i].now {
-                expect = false;
-            }
-            i += 1;
-        }
+        let expect = (depth < 1 || model[0].now) && (depth < 2 || model[1].now) && (depth < 3 || model[2].now)
+            && (depth < 4 || model[3].now) && (depth < 5 || model[4].now);
         assert!(chain.is_active() == expect);
         step += 1;
     }
